@@ -17,10 +17,13 @@ def oracle_pr(ck, b, s, J, x, o=2, ri=-1):
     h0a, h0b, g0a, g0b, h1a, h1b, g1a, g1b = [np.ravel(v) for v in qt]
     desc = 'DTCWT PR %s/%s J=%d shape=%s layout=(%d,%d)' % (b, s, J, tuple(x.shape), o, ri)
     replay = {'oracle': 'pr', 'b': b, 's': s, 'J': J, 'x': arr_json(x), 'o': o, 'ri': ri}
-    fw = rt.run_impl(rt.Case('Q', 'DTCWTForward', [o, ri, 1, J, 0, 0], [h0o, h1o, h0a, h0b, h1a, h1b, x]), IMPL)
+    from .. import impl_dtcwt
+    with impl_dtcwt.named(b, s):
+        fw = rt.run_impl(rt.Case('Q', 'DTCWTForward', [o, ri, 1, J, 0, 0], [h0o, h1o, h0a, h0b, h1a, h1b, x]), IMPL)
     if isinstance(fw, tuple):
         ck.fail(desc + ': forward raises %s: %s' % (fw[1], fw[2]), replay); return 'raise'
-    bw = rt.run_impl(rt.Case('Q', 'DTCWTInverse', [o, ri, 1, 0], [g0o, g1o, g0a, g0b, g1a, g1b] + list(fw)), IMPL)
+    with impl_dtcwt.named(b, s):
+        bw = rt.run_impl(rt.Case('Q', 'DTCWTInverse', [o, ri, 1, 0], [g0o, g1o, g0a, g0b, g1a, g1b] + list(fw)), IMPL)
     if isinstance(bw, tuple):
         ck.fail(desc + ': inverse raises %s: %s' % (bw[1], bw[2]), replay); return 'raise'
     y = bw[0]
